@@ -6,6 +6,7 @@
 import Peppi.VersionProof
 import Peppi.Lemmas.C09
 import Peppi.Lemmas.C09P
+import Peppi.VersionOrder
 set_option linter.unusedVariables false
 namespace Peppi.Props.C09
 
@@ -31,5 +32,37 @@ theorem C09_both (g : Game) (hash : Option String) (h : g.start.version.above) :
 /- from `Peppi.Lemmas.C09` -/
 theorem C09_guard_passes (g : Game) (h : ¬ g.start.version.above) : assertMaxVersion g.start.version = .ok () :=
   _root_.Peppi.C09_guard_passes g h
+
+/- from `Peppi.VersionOrder` -/
+theorem Ver_le_total (a b : Ver) : a.le b = true ∨ b.le a = true :=
+  _root_.Peppi.Ver.le_total a b
+
+/- from `Peppi.VersionOrder` -/
+theorem Ver_le_trans (a b c : Ver) (h1 : a.le b = true) (h2 : b.le c = true) : a.le c = true :=
+  _root_.Peppi.Ver.le_trans a b c h1 h2
+
+/- from `Peppi.VersionOrder` -/
+theorem Ver_le_antisymm (a b : Ver) (h1 : a.le b = true) (h2 : b.le a = true) : a = b :=
+  _root_.Peppi.Ver.le_antisymm a b h1 h2
+
+/- from `Peppi.VersionOrder` -/
+theorem assertMaxVersion_le (v : Ver) : assertMaxVersion v = .ok () ↔ v.le MAX_SUPPORTED_VERSION = true :=
+  _root_.Peppi.assertMaxVersion_le v
+
+/- from `Peppi.VersionOrder` -/
+theorem assertMaxVersion_down (v w : Ver) (h : v.le w = true) (hw : assertMaxVersion w = .ok ()) :
+    assertMaxVersion v = .ok () :=
+  _root_.Peppi.assertMaxVersion_down v w h hw
+
+/- from `Peppi.VersionOrder` -/
+theorem assertMaxVersion_up (v w : Ver) (h : v.le w = true) (hv : assertMaxVersion v ≠ .ok ()) :
+    assertMaxVersion w = .err "unsupported version" :=
+  _root_.Peppi.assertMaxVersion_up v w h hv
+
+/- from `Peppi.VersionOrder` -/
+theorem assertMaxVersion_boundary :
+    assertMaxVersion ⟨3, 16, 0⟩ = .ok () ∧ assertMaxVersion ⟨3, 16, 1⟩ = .err "unsupported version" ∧
+    ∀ v : Ver, assertMaxVersion v = .ok () ∨ (⟨3, 16, 1⟩ : Ver).le v = true :=
+  _root_.Peppi.assertMaxVersion_boundary 
 
 end Peppi.Props.C09
